@@ -47,10 +47,9 @@ def _targets(st):
 
 
 def _matches(st, targets, calls, raises):
-    for t in _targets(st):
-        for a in targets:
-            if t == a or (a.endswith('*') and t.startswith(a[:-1])):
-                return a
+    hit = [a for t in _targets(st) for a in targets if t == a or (a.endswith('*') and t.startswith(a[:-1]))]
+    if hit:
+        return hit
     if isinstance(st, ast.Raise) and raises and (raises is True or raises in ast.unparse(st)):
         return 'raise'
     if isinstance(st, ast.Return) and 'return' in targets:
@@ -63,7 +62,7 @@ def _matches(st, targets, calls, raises):
     return None
 
 
-def slice_function(relpath, func, targets, params, cls=None, calls=(), raises=False, returns=None, name='sliced', verbose=False):
+def slice_function(relpath, func, targets, params, cls=None, calls=(), raises=False, returns=None, name='sliced', verbose=False, flatten_loops=False):
     """returns (callable_factory, source_text). callable_factory(globals_dict) -> function(*params)"""
     f = get_function(relpath, func, cls)
     found = set()
@@ -73,7 +72,7 @@ def slice_function(relpath, func, targets, params, cls=None, calls=(), raises=Fa
         for st in stmts:
             m = _matches(st, targets, calls, raises)
             if m:
-                found.add(m)
+                found.update(m if isinstance(m, list) else [m])
                 out.append(st)
                 continue
             if isinstance(st, ast.If):
@@ -83,7 +82,9 @@ def slice_function(relpath, func, targets, params, cls=None, calls=(), raises=Fa
                     out.append(ast.If(test=st.test, body=b or [ast.Pass()], orelse=o))
             elif isinstance(st, (ast.For, ast.While)):
                 b = prune(st.body)
-                if b:
+                if b and flatten_loops:
+                    out += b
+                elif b:
                     n = ast.For(target=st.target, iter=st.iter, body=b, orelse=[]) if isinstance(st, ast.For) else ast.While(test=st.test, body=b, orelse=[])
                     out.append(n)
             elif isinstance(st, ast.With):
@@ -123,3 +124,16 @@ def find_calls(relpath, func, attr, cls=None):
             if nm == attr:
                 out.append(n)
     return out
+
+
+def find_if_test(relpath, func, mentions, cls=None):
+    """the test expression of the first `if` inside func whose source mentions all the given substrings -> (code, text)"""
+    f = get_function(relpath, func, cls)
+    for n in ast.walk(f):
+        if isinstance(n, ast.If):
+            u = ast.unparse(n.test)
+            if all(m in u for m in mentions):
+                expr = ast.Expression(body=n.test)
+                ast.fix_missing_locations(expr)
+                return compile(expr, '<if-test of %s:%s>' % (relpath, func), 'eval'), u, n
+    raise AnchorMissing('%s.%s: no if-test mentions %s' % (relpath, func, mentions))
